@@ -1049,7 +1049,7 @@ func TestCheck(t *testing.T) {
 		kShared.Check(rt, c, nt, cl...)
 		_ = os.Remove(r.cur)
 	})
-	rec.Rapid(t, "retention", rec.N(8, 40), func(rt *rapid.T) {
+	rec.Rapid(t, "retention", rec.N(16, 60), func(rt *rapid.T) {
 		c, nt, cl := genRetentionCase(rt)
 		kRet.CheckLazy(rt, c, func() (bool, []string) {
 			if lastRetention.unit > 0 {
